@@ -1,6 +1,6 @@
 #!/usr/bin/env python3
 """Regenerate coq/Gen/*.v from /repo's current headers (run on every check).
-Usage: gen.py [enc|float|lock|prefix|qsbr|asserts|mutex|ptr|all]...   Exit 0 = all requested files generated.
+Usage: gen.py [enc|float|lock|prefix|qsbr|asserts|compare|sizes|mutex|ptr|all]...   Exit 0 = all requested files generated.
 On a translator failure the file is replaced by a stub that does not define
 the functions, so the dependent bridge proofs fail (broken tie), and the
 failure text is written to build/gen_errors.json."""
@@ -313,6 +313,109 @@ def gen_qsbr():
     return 'qsbr.hpp qsbr_epoch / qsbr_state', out
 
 
+# ---- compare: detail::compare (both overloads) and basic_art_key<KeyType>::cmp / constructors for KeyType = key_view, u64 ----
+TU_COMPARE = '#include <bit>\n#include "global.hpp"\n#include "art_internal.hpp"\n' \
+    'static_assert(std::endian::native == std::endian::little);\n' \
+    'static_assert(sizeof(unodb::key_view) == 16);\n' \
+    'static_assert(sizeof(std::byte) == 1);\n'
+AK = 'unodb::detail::basic_art_key<%s>'
+TU_COMPARE_KEY = TU_COMPARE + ''.join(
+    'template %s;\n' % d for d in ('int %(k)s::cmp(%(k)s) const noexcept', 'int %(k)s::cmp(unodb::key_view) const noexcept',
+                                   '%(k)s::basic_art_key(%(t)s) noexcept'))
+
+
+def gen_compare():
+    from cxx2v_mem import MemFn
+    out = 'From Unodb Require Import Base.MemPrims.\n\n'
+    calls = {}
+
+    def fn(u, name, coq, sig, parent, rec=None, mode='return', this=(), objs=(), types=(), result=None):
+        nonlocal out
+        f = MemFn(u, u.find(name, sig, parent, rec), coq, mode=mode, this_fields={m: m for m in this})
+        f.obj_params = {o: {m: o + '_' + m for m in this} for o in objs}
+        f.coq_types = dict(types)
+        f.result_coq = result
+        f.mem_calls = dict(calls)
+        f.identity_methods = ()
+        try:
+            out += f.translate()
+        except Unsupported as e:
+            raise Unsupported('%s (%s): %s' % (coq, name, e))
+
+    u = Unit()
+    u.load(TU_COMPARE, 'detail::compare', ['-DNDEBUG'])
+    fn(u, 'compare', 'ak_compare', '(const void *, const size_t, const void *, const size_t)', None)
+    calls[('compare', '(const void *, const size_t, const void *, const size_t)')] = 'ak_compare'
+    fn(u, 'compare', 'ak_compare_kv', '(const unodb::key_view, const unodb::key_view)', None)
+    calls[('compare', '(const unodb::key_view, const unodb::key_view)')] = 'ak_compare_kv'
+    # KeyType = key_view: the key is the span itself
+    u = Unit()
+    u.load(TU_COMPARE_KEY % {'k': AK % 'unodb::key_view', 't': 'unodb::key_view'}, 'basic_art_key', ['-DNDEBUG'])
+    L = 'list Z'
+    fn(u, 'basic_art_key', 'ak_kv_make', 'void (unodb::key_view)', 'basic_art_key', 'specialization', mode='field:key',
+       this=('key',), types={'key': L}, result=L)
+    fn(u, 'cmp', 'ak_kv_cmp_key', '(basic_art_key<', 'basic_art_key', 'specialization', this=('key',), objs=('key2',),
+       types={'key': L, 'key2_key': L})
+    fn(u, 'cmp', 'ak_kv_cmp_view', '(unodb::key_view)', 'basic_art_key', 'specialization', this=('key',), types={'key': L})
+    # KeyType = std::uint64_t: the key is the byte-swapped word, compared through its object bytes
+    u = Unit()
+    u.load(TU_COMPARE_KEY % {'k': AK % 'std::uint64_t', 't': 'std::uint64_t'}, 'basic_art_key', ['-DNDEBUG'])
+    fn(u, 'make_binary_comparable', 'ak_u64_make_binary_comparable', None, 'basic_art_key', 'specialization')
+    calls[('make_binary_comparable', '')] = 'ak_u64_make_binary_comparable'
+    fn(u, 'basic_art_key', 'ak_u64_make', 'void (unsigned long)', 'basic_art_key', 'specialization', mode='field:key',
+       this=('key',))
+    fn(u, 'cmp', 'ak_u64_cmp_key', '(basic_art_key<', 'basic_art_key', 'specialization', this=('key',), objs=('key2',))
+    fn(u, 'cmp', 'ak_u64_cmp_view', '(unodb::key_view)', 'basic_art_key', 'specialization', this=('key',))
+    return 'art_internal.hpp detail::compare / basic_art_key::cmp', out
+
+
+# ---- sizes: the compile-time node-size constants, folded by clang ----
+SIZE_CONFIGS = (('unodb::detail::inode_%s<std::uint64_t, unodb::value_view>', 'db_u64'),
+                ('unodb::detail::inode_%s<unodb::key_view, unodb::value_view>', 'db_kv'),
+                ('unodb::detail::olc_inode_%s<std::uint64_t, unodb::value_view>', 'olc_u64'),
+                ('unodb::detail::olc_inode_%s<unodb::key_view, unodb::value_view>', 'olc_kv'))
+SIZE_CONSTS = [('i%s_capacity' % c, c, 'capacity') for c in ('4', '16', '48', '256')] + \
+              [('i%s_min_size' % c, c, 'min_size') for c in ('4', '16', '48', '256')] + \
+              [('i%s_larger_capacity' % c, c, 'larger_derived_type::capacity') for c in ('4', '16', '48')] + \
+              [('i%s_smaller_capacity' % c, c, 'smaller_derived_type::capacity') for c in ('16', '48', '256')] + \
+              [('i48_empty_child', '48', 'empty_child')]
+
+
+def gen_sizes():
+    tu = '#include "global.hpp"\n#include "art.hpp"\n#include "olc_art.hpp"\nnamespace verif_gen_sizes {\n'
+    for pat, tag in SIZE_CONFIGS:
+        tu += 'enum %s : unsigned long {\n' % tag
+        tu += ''.join('  %s_%s = %s::%s,\n' % (tag, nm, pat % c, member) for nm, c, member in SIZE_CONSTS)
+        tu += '  %s_key_prefix_capacity = unodb::detail::key_prefix_capacity,\n};\n' % tag
+    tu += '}\n'
+    u = Unit()
+    found = {}
+
+    def walk(n):
+        if n.get('kind') == 'EnumConstantDecl':
+            ks = cxx2v.kids(n)
+            if len(ks) != 1 or ks[0].get('kind') != 'ConstantExpr' or 'value' not in ks[0]:
+                raise Unsupported('enumerator %s is not a folded constant' % n.get('name'))
+            found[n['name']] = int(ks[0]['value'])
+        for c in n.get('inner', []):
+            if isinstance(c, dict):
+                walk(c)
+    u.walk = lambda n, parent, rec=None: walk(n)
+    # -fno-access-control: inode_48's empty_child is a private member
+    u.load(tu, 'verif_gen_sizes', ['-DNDEBUG', '-DUNODB_SPINLOCK_LOOP_VALUE=1', '-fno-access-control'])
+    out = ''
+    for nm in [c[0] for c in SIZE_CONSTS] + ['key_prefix_capacity']:
+        vals = set()
+        for pat, tag in SIZE_CONFIGS:
+            if '%s_%s' % (tag, nm) not in found:
+                raise Unsupported('constant %s of %s not found' % (nm, tag))
+            vals.add(found['%s_%s' % (tag, nm)])
+        if len(vals) != 1:
+            raise Unsupported('constant %s differs between db / olc_db / key types: %s' % (nm, sorted(vals)))
+        out += 'Definition gs_%s : Z := %d.\n\n' % (nm, vals.pop())
+    return 'art_internal_impl.hpp basic_inode<...>::capacity / min_size, key_prefix_capacity, inode_48 empty_child', out
+
+
 def gen_shape(which):
     import shape2v
     origin, body, imp = shape2v.gen_mutex() if which == 'mutex' else shape2v.gen_ptr()
@@ -482,6 +585,7 @@ TARGETS = {'enc': ('GenEncode.v', gen_encode), 'float': ('GenFloat.v', gen_float
            'prefix': ('GenKeyPrefix.v', gen_prefix),
            'qsbr': ('GenQsbrState.v', gen_qsbr),
            'asserts': ('GenAsserts.v', gen_asserts),
+           'compare': ('GenCompare.v', gen_compare), 'sizes': ('GenSizes.v', gen_sizes),
            'mutex': ('GenMutexMethods.v', lambda: gen_shape('mutex')), 'ptr': ('GenPtrMethods.v', lambda: gen_shape('ptr'))}
 
 
